@@ -10,6 +10,8 @@ namespace GoZero.C13.Tie
 open GoZero.C13
 open GoZero.Extracted.C13
 
+set_option maxRecDepth 8000
+
 theorem extraction_clean : extractionErrors = [] := by decide
 
 /-- the property's literal number: the resolver publishes everything up to 32 addresses -/
@@ -345,8 +347,7 @@ theorem tie_reloadShape :
        "call c.watchGroup.Run",
        "}"] := by decide
 
-/-- discovBuilder.Build: update = UpdateState(subset(sub.Values(), subsetSize)); registered as listener and called once. -/
-theorem tie_discovBuildShape : discovBuildShape =
+def buildHead : List String :=
     ["call targets.GetAuthority",
      "func{",
      "return",
@@ -356,8 +357,10 @@ theorem tie_discovBuildShape : discovBuildShape =
      "if err != nil {",
      "return",
      "}",
-     "func{",
-     "call sub.Values",
+     "func{"]
+
+def buildUpdateBody : List String :=
+    ["call sub.Values",
      "call subset",
      "range vals {",
      "}",
@@ -367,7 +370,39 @@ theorem tie_discovBuildShape : discovBuildShape =
      "}",
      "call sub.AddListener",
      "call update",
-     "return"] := by decide
+     "return"]
+
+/-- discovBuilder.Build: update = UpdateState(subset(sub.Values(), subsetSize)); registered as listener FIRST, then
+called once (`BuildConc.Order.listenerFirst`; the other order loses an event: `update_before_listener_loses_event`).
+Two forms are accepted until fixes/C13-resolver-update-serialized.patch is applied: update() under a mutex
+(`BuildConc … atomic = true`: `build_publishes_view_at_quiescence`) or the code as it is (witness
+`unserialized_update_publishes_stale`). -/
+theorem tie_discovBuildShape :
+    discovBuildShape = buildHead ++ buildUpdateBody
+    ∨ discovBuildShape = buildHead ++ ["call lock.Lock", "defer{", "call lock.Unlock", "}"] ++ buildUpdateBody := by decide
+
+def buildUpdateSrc : String :=
+  "vals := subset(sub.Values(), subsetSize) addrs := make([]resolver.Address, 0, len(vals)) for _, val := range vals { addrs = append(addrs, resolver.Address{ Addr: val, }) } if err := cc.UpdateState(resolver.State{ Addresses: addrs, }); err != nil { logx.Error(err) } }"
+
+def buildStmtsHead : List String :=
+    ["hosts := strings.FieldsFunc(targets.GetAuthority(target), func(r rune) bool { return r == EndpointSepChar })",
+     "sub, err := discov.NewSubscriber(hosts, targets.GetEndpoints(target))",
+     "if err != nil {",
+     "return nil, err",
+     "}"]
+
+def buildStmtsTail : List String :=
+    ["sub.AddListener(update)",
+     "update()",
+     "return &discovResolver{ cc: cc, sub: sub, }, nil"]
+
+/-- Build statement by statement: the subscriber is created for the target's endpoints key with no option (never
+exclusive), update() publishes `subset(sub.Values(), subsetSize)` — every value becomes one address — and is
+registered before it is called. -/
+theorem tie_discovBuildStmts :
+    discovBuildStmts = buildStmtsHead ++ ["update := func() { " ++ buildUpdateSrc] ++ buildStmtsTail
+    ∨ discovBuildStmts = buildStmtsHead ++ ["var lock sync.Mutex", "update := func() { lock.Lock() defer lock.Unlock() " ++ buildUpdateSrc]
+        ++ buildStmtsTail := by decide
 
 /-- kube OnAdd: insert unknown addresses, notify iff something was new — `Kube.step (.add …)`. -/
 theorem tie_kubeOnAddShape : kubeOnAddShape =
@@ -437,5 +472,267 @@ theorem tie_kubeUpdateShape : kubeUpdateShape =
      "if diff(old, h.endpoints) {",
      "call h.notify",
      "}"] := by decide
+
+/-! ### round 4: publisher, glue between the packages, constructors / options, translated conditions -/
+
+/-- `register`: Grant; the full key is `makeEtcdKey(p.key, p.id)` when `p.id > 0`, else `makeEtcdKey(p.key, int64(lease))`;
+Put(fullKey, value, WithLease(lease)); the lease is returned (doRegister stores it in p.lease) — `Pub.register`, `storePut`. -/
+theorem tie_registerStmts : registerStmts =
+    ["resp, err := client.Grant(client.Ctx(), TimeToLive)",
+     "if err != nil {",
+     "return clientv3.NoLease, err",
+     "}",
+     "lease := resp.ID",
+     "if p.id > 0 {",
+     "p.fullKey = makeEtcdKey(p.key, p.id)",
+     "}",
+     "else {",
+     "p.fullKey = makeEtcdKey(p.key, int64(lease))",
+     "}",
+     "_, err = client.Put(client.Ctx(), p.fullKey, p.value, clientv3.WithLease(lease))",
+     "return lease, err"] := by decide
+
+/-- the condition of `register`, translated: the model's `pubKeyId` takes the id exactly when the Go condition holds -/
+theorem tie_registerGuard (id lease : Nat) :
+    pubKeyId id lease = if registerGuard id then id else lease := by
+  unfold pubKeyId registerGuard
+  by_cases h : id > 0 <;> simp [h]
+
+theorem tie_doRegisterStmts : doRegisterStmts =
+    ["cli, err := internal.GetRegistry().GetConn(p.endpoints)",
+     "if err != nil {",
+     "return nil, err",
+     "}",
+     "p.lease, err = p.register(cli)",
+     "return cli, err"] := by decide
+
+/-- `revoke` revokes `p.lease` — the lease of the last registration (`storeRevoke s p.lease`). -/
+theorem tie_revokeStmts : revokeStmts =
+    ["if _, err := cli.Revoke(cli.Ctx(), p.lease); err != nil {",
+     "}"] := by decide
+
+theorem tie_withIdStmts : withIdStmts = ["return func(publisher *Publisher) { publisher.id = id }"] := by decide
+
+/-- the glue between publisher and subscriber: a publisher's key is `<key>/<id>`, a subscriber watches the
+prefix `<key>/` — the same delimiter on both sides, so the keys of `<key>` are covered and those of a sibling
+service `<key>x` are not. -/
+theorem tie_keyGlue :
+    makeEtcdKeyStmts = ["return fmt.Sprintf(\"%s%c%d\", key, internal.Delimiter, id)"]
+    ∧ makeKeyPrefixStmts = ["return fmt.Sprintf(\"%s%c\", key, Delimiter)"] := by decide
+
+/-- KeepAlive = doRegister, then keepAliveAsync -/
+theorem tie_keepAliveShape : keepAliveShape =
+    ["call p.doRegister",
+     "if err != nil {",
+     "return",
+     "}",
+     "func{",
+     "call p.Stop",
+     "}",
+     "call proc.AddWrapUpListener",
+     "call p.keepAliveAsync",
+     "return"] := by decide
+
+/-- the keep-alive goroutine: channel closed -> revoke, doKeepAlive; Pause -> revoke, then Resume -> doKeepAlive or
+Stop -> nothing more; Stop -> revoke (logging dropped) -/
+theorem tie_keepAliveAsyncShape : keepAliveAsyncShape =
+    ["call cli.KeepAlive",
+     "if err != nil {",
+     "return",
+     "}",
+     "func{",
+     "for {",
+     "select{",
+     "case recv ch:",
+     "if !ok {",
+     "call p.revoke",
+     "call p.doKeepAlive",
+     "if err != nil {",
+     "}",
+     "return",
+     "}",
+     "case recv p.pauseChan:",
+     "call p.revoke",
+     "select{",
+     "case recv p.resumeChan:",
+     "call p.doKeepAlive",
+     "if err != nil {",
+     "}",
+     "return",
+     "case recv p.quit.Done(); call p.quit.Done:",
+     "return",
+     "}",
+     "case recv p.quit.Done(); call p.quit.Done:",
+     "call p.revoke",
+     "return",
+     "}",
+     "}",
+     "}",
+     "call threading.GoSafe",
+     "return"] := by decide
+
+/-- doKeepAlive: at a tick, unless stopped: doRegister, then keepAliveAsync -/
+theorem tie_doKeepAliveShape : doKeepAliveShape =
+    ["defer{",
+     "call ticker.Stop",
+     "}",
+     "range ticker.C {",
+     "select{",
+     "case recv p.quit.Done(); call p.quit.Done:",
+     "return",
+     "default:",
+     "call p.doRegister",
+     "if err != nil {",
+     "break",
+     "}",
+     "call p.keepAliveAsync",
+     "if err != nil {",
+     "break",
+     "}",
+     "return",
+     "}",
+     "}",
+     "return"] := by decide
+
+/-- `getCurrent` hands out every entry of watcher.values (what a joining listener is told: `ValidJoin`) -/
+theorem tie_getCurrentStmts : getCurrentStmts =
+    ["c.lock.RLock()",
+     "defer c.lock.RUnlock()",
+     "watcher, ok := c.watchers[key]",
+     "if !ok {",
+     "return nil",
+     "}",
+     "var kvs []KV",
+     "for k, v := range watcher.values {",
+     "kvs = append(kvs, KV{ Key: k, Val: v, })",
+     "}",
+     "return kvs"] := by decide
+
+/-- `cluster.monitor`: the listener is registered before the first load, the watch starts after it -/
+theorem tie_clusterMonitorShape : clusterMonitorShape =
+    ["call c.getClient",
+     "if err != nil {",
+     "return",
+     "}",
+     "call c.addListener",
+     "call c.load",
+     "func{",
+     "call c.watch",
+     "}",
+     "call c.watchGroup.Run",
+     "return"] := by decide
+
+/-- `load`: Get (exact key or prefix), every returned kv goes to handleChanges -/
+theorem tie_loadShape : loadShape =
+    ["for {",
+     "call context.WithTimeout",
+     "if key.exactMatch {",
+     "call cli.Get",
+     "}",
+     "else{",
+     "call clientv3.WithPrefix",
+     "call cli.Get",
+     "}",
+     "call cancel",
+     "if err == nil {",
+     "break",
+     "}",
+     "call coolDownUnstable.AroundDuration",
+     "}",
+     "range resp.Kvs {",
+     "}",
+     "call c.handleChanges",
+     "return"] := by decide
+
+/-- `notifyChange` calls every listener that is registered, `addListener` appends — `notifyChange` / `BuildConc.step` -/
+theorem tie_listenerStmts :
+    notifyChangeStmts =
+      ["c.lock.Lock()",
+       "listeners := append(([]func())(nil), c.listeners...)",
+       "c.lock.Unlock()",
+       "for _, listener := range listeners {",
+       "listener()",
+       "}"]
+    ∧ addListenerStmts =
+      ["c.lock.Lock()",
+       "c.listeners = append(c.listeners, listener)",
+       "c.lock.Unlock()"]
+    ∧ subscriberAddListenerStmts = ["s.items.addListener(listener)"]
+    ∧ subscriberValuesStmts = ["return s.items.getValues()"] := by decide
+
+theorem tie_removeKeyStmts : removeKeyStmts =
+    ["c.lock.Lock()",
+     "defer c.lock.Unlock()",
+     "c.dirty.Set(true)",
+     "c.doRemoveKey(key)"] := by decide
+
+/-- constructors / options: a new container is empty and dirty (`Container.new`), the subscriber's container gets the
+`exclusive` flag the options set, and is handed to Registry.Monitor for the subscriber's key -/
+theorem tie_constructors :
+    newContainerStmts =
+      ["return &container{ exclusive: exclusive, values: make(map[string][]string), mapping: make(map[string]string), dirty: syncx.ForAtomicBool(true), }"]
+    ∧ exclusiveStmts = ["return func(sub *Subscriber) { sub.exclusive = true }"]
+    ∧ newSubscriberStmts =
+      ["sub := &Subscriber{ endpoints: endpoints, key: key, }",
+       "for _, opt := range opts {",
+       "opt(sub)",
+       "}",
+       "sub.items = newContainer(sub.exclusive)",
+       "if err := internal.GetRegistry().Monitor(endpoints, key, sub.exactMatch, sub.items); err != nil {",
+       "return nil, err",
+       "}",
+       "return sub, nil"] := by decide
+
+/-- `subset`, translated condition: the model returns everything exactly when the Go condition `len(set) <= sub` holds -/
+theorem tie_subsetGuard (l : List Nat) (n : Nat) :
+    GoZero.C13.subset l n = if subsetGuard l.length n then l else l.take n := by
+  unfold GoZero.C13.subset subsetGuard
+  by_cases h : l.length ≤ n <;> simp [h]
+
+/-- `addKv`, translated conditions: `early` = some key carries the value; the displacement loop runs for an
+exclusive container with `early` — the model's `c1.exclusive && !keys.isEmpty` -/
+theorem tie_addKvGuards (excl : Bool) (keys : List Nat) :
+    addKvDisplaceGuard excl (addKvEarly keys.length) = (excl && !keys.isEmpty)
+    ∧ addKvEarlyGuard (addKvEarly keys.length) = !keys.isEmpty := by
+  unfold addKvDisplaceGuard addKvEarlyGuard addKvEarly
+  cases keys <;> simp
+  all_goals omega
+
+/-- `doRemoveKey`, translated conditions: a key stays when it differs from the removed one; the rest is kept when it
+is not empty — the model's `filter (· ≠ key)` / `remain.isEmpty` -/
+theorem tie_doRemoveKeyGuards (k key : Nat) (remain : List Nat) :
+    doRemoveKeyFilterGuard k key = decide (k ≠ key)
+    ∧ doRemoveKeyKeepGuard remain.length = !remain.isEmpty := by
+  unfold doRemoveKeyFilterGuard doRemoveKeyKeepGuard
+  constructor
+  · by_cases h : k = key <;> simp [h, Int.natCast_inj]
+  · cases remain <;> simp
+
+/-- `calculateChanges`, translated conditions — `calcAdds` keeps an entry of the new map when the old map has no
+such key or another value; `calcRemoves` (fixed) an entry of the old map when the new one has no such key -/
+theorem tie_calculateChangesGuards (old new : Map Nat) (p : Nat × Nat) :
+    (decide (old.get p.1 ≠ some p.2) = calcAddGuard (old.get p.1).isSome p.2 ((old.get p.1).getD 0))
+    ∧ (decide (new.get p.1 = none) = calcRemoveGuard (new.get p.1).isSome) := by
+  unfold calcAddGuard calcRemoveGuard
+  constructor
+  · cases h : old.get p.1 with
+    | none => simp
+    | some v =>
+      by_cases hv : (p.2 : Int) = v
+      · have : p.2 = v := by exact_mod_cast hv
+        simp [this]
+      · have : p.2 ≠ v := fun e => hv (by exact_mod_cast e)
+        simp [hv, Ne.symm this]
+  · cases h : new.get p.1 <;> simp
+
+/-- kube, translated conditions: `diff` starts with the size comparison (`kdiff`); OnUpdate skips exactly when the
+two resource versions are equal (the driver's `o == n`) -/
+theorem tie_kubeGuards (o n : List Nat) (a b : Nat) :
+    kubeDiffLenGuard o.length n.length = (o.length != n.length)
+    ∧ kubeOnUpdateSkipGuard a b = decide (a = b) := by
+  unfold kubeDiffLenGuard kubeOnUpdateSkipGuard
+  constructor
+  · by_cases h : o.length = n.length <;> simp [h, Int.natCast_inj]
+  · by_cases h : a = b <;> simp [h, Int.natCast_inj]
 
 end GoZero.C13.Tie
